@@ -75,13 +75,15 @@ def perturb_flow(rng, G, attr="flow", is_int=True, p=0.4):
 
 # ---------------------------------------------------------------------------------------------
 # error models (C07 kLeastAbsErrors, C08 kMinPathError): arbitrary non-negative weights + options
-def rand_err_args(rng, kind, nmax=None, tiny=False):
+def rand_err_args(rng, kind, nmax=None, tiny=False, force_int=None):
     """Constructor arguments (without k / solver options) for kLeastAbsErrors ('lae') or kMinPathError
     ('mpe') on a random DAG with non-negative, not all zero, NOT necessarily conserving weights.
     Returns (args, info); info = {'node_mode', 'is_int', 'paths'}."""
     nmax = nmax or rng.choice([3, 4, 5, 6])
     node_mode = (not tiny) and rng.random() < 0.22
     is_int = rng.random() < (0.75 if kind == "mpe" else 0.6)
+    if force_int is not None:
+        is_int = force_int
     unit = 1 if is_int else rng.choice([0.5, 0.25, 1.0, 1.5])
     while True:
         G0 = gen.rand_dag(rng, nmax=nmax)
